@@ -27,6 +27,10 @@ def run(tier, chk):
     cl = common.gen_scenarios(chk, wd, "GoawayRecv_Gen", label="cgen", workers=4)
     common.run_sim(chk, wd, cl, "C04_Trace", label="csim", shards=6, sig_of=lambda s, t, w: "c08:client-goaway-sequence")
     if tier != "quick":
+        # unbounded (any stream ids, any n): the invariant behind RequestIds / Line is inductive, the announced identifier never grows
+        common.run_apalache(chk, wd, "ShutdownInd", [("Init", "IndInv", 0, "initiation"), ("IndInit", "IndInv", 1, "consecution"),
+                                                      ("IndInit", "Safety", 0, "IndInv implies RequestIds and Line"),
+                                                      ("IndInit", "LimitNeverGrows", 1, "action property NonIncreasing")])
         # every scenario family of the simulator-based checks: GOAWAY identifiers written on the control stream never grow (H3Conn_Trace)
         corpus.cross(chk, "C08", "H3Conn_Trace", env_extra={"INV": "GOAWAY"}, sig_of=lambda s, t, w: "c08:corpus:goaway-id-grows-on-the-wire")
     chk.exhaustive = True
